@@ -889,6 +889,36 @@ def r04_16(ctx, rep):
                "`%s` can run when the class already has a `*` entry: the packages of the earlier unqualified imports are replaced" % norm(x.ast)[:70])
 
 
+@SPEC.rule(
+    "R04.17",
+    "every part of a declarator's modification is kept: each iteration of the loop of ASTListener.exitDeclaration over the parsed "
+    "modification either stores the item as the symbol's class modification or wraps it as the `value` argument and adds that — whatever "
+    "kind of expression the binding is (a range `1:3` is an ast.Slice, not an Expression)",
+)
+def r04_17(ctx, rep):
+    from ..cfg import iteration_skips
+    R = "R04.17"
+    fn = ctx.func(PARSER, L + ".exitDeclaration", R)
+    site = PARSER + ":" + L + ".exitDeclaration"
+    cfg = CFG(fn, R)
+    from ..pyutil import inlined
+    loops = [lp for lp in walk_local(fn) if isinstance(lp, ast.For) and "modification()" in norm(inlined(lp.iter, fn.body))]
+    if not loops:
+        raise MechanismMissing(R, "the loop over the declarator's modification was not found in exitDeclaration")
+    for lp in loops:
+        def kept(x):
+            if x.kind != "stmt":
+                return False
+            a = x.ast
+            if isinstance(a, ast.Assign) and any(isinstance(t, ast.Attribute) and t.attr == "class_modification" for t in a.targets):
+                return True
+            return any(isinstance(c.func, ast.Attribute) and c.func.attr in ("append", "extend") and norm(c.func.value).endswith(".arguments") for c in calls(a))
+        w = iteration_skips(cfg, lp, kept)
+        rep.ob(R, site, "every item of the modification is stored on the symbol", w is None,
+               "an iteration can end without the item having become the symbol's class modification or one of its arguments: that binding or "
+               "modifier is silently dropped", path=cfg.describe(w) if w else "")
+
+
 # -- seeded variants ---------------------------------------------------------
 from ._mut import delete_stmt_where, replace_in_func  # noqa: E402
 
